@@ -162,6 +162,7 @@ func (state *State) ClearInSync() {
 
 	state.wasInSync = false
 	state.isInSync = false
+	state.pendingSync = false // the peer has to confirm there are no more headers again
 }
 
 func (state *State) WasInSync() bool {
